@@ -70,6 +70,8 @@ structure ScriptIn where
   locals : List (Str × Str)
   env : List (Str × Str)
   text : Str
+  text2 : Option Str          -- a second script run on the same runner afterwards
+  labels2 : List Str          -- labels added to the runner between the two scripts
   valid : List (Str × Bool)
   rmatches : List ((Str × Str) × Bool)
   db : DbScript
@@ -81,10 +83,12 @@ def readScript : Rd ScriptIn := do
   let locals ← listOf (do let a ← str; let b ← str; pure (a, b))
   let env ← listOf (do let a ← str; let b ← str; pure (a, b))
   let text ← str
+  let text2 ← optStr
+  let labels2 ← listOf str
   let valid ← listOf pairSB
   let rmatches ← listOf tripleSSB
   let db ← readDb
-  pure { strictCols, threshold, labels, locals, env, text, valid, rmatches, db }
+  pure { strictCols, threshold, labels, locals, env, text, text2, labels2, valid, rmatches, db }
 
 def hasSubstOn (rs : List Rec) : Bool :=
   rs.any (fun r => match r with | .control (.substitution true) => true | _ => false)
@@ -137,14 +141,29 @@ def runScriptWith (c : ScriptIn) (dflt : Bool) : String :=
     let E := dbEnv c.db (substFn c.locals c.env) (fun re t => (lookupPair c.rmatches re t).getD dflt)
     let cfg : RCfg := { labels := c.labels, strictCols := c.strictCols }
     let w0 : World DbState := { db := {}, threshold := c.threshold }
-    let r := runMulti E cfg w0 recs
-    let w := shutdownAll r.1
-    let res := match cutAtPanic r.1.trace, r.2 with
+    let r1 := runMulti E cfg w0 recs
+    let showRes (t : List Ev) (x : RunResult) : String := match cutAtPanic t, x with
       | some _, _ => "crashed"
       | none, .ok => "ok"
       | none, .failed l k d => s!"failed {l} {failKindStr k} {hx d}"
       | none, .crashed => "crashed"
-    let evs := match cutAtPanic r.1.trace with
+    -- the second script runs on the runner as the first one left it (whatever its result)
+    let second : Option (World DbState × String) :=
+      match c.text2, cutAtPanic r1.1.trace, r1.2 with
+      | some t2, none, .ok | some t2, none, .failed .. =>
+        (match parse pcfg t2 with
+         | .error e => some (r1.1, s!"parseerr {encPFail e}")
+         | .ok recs2 =>
+           let r2 := runMulti E { cfg with labels := cfg.labels ++ c.labels2 } r1.1 recs2
+           some (r2.1, showRes r2.1.trace r2.2))
+      | _, _, _ => none
+    let wEnd := match second with | some (w2, _) => w2 | none => r1.1
+    let w := shutdownAll wEnd
+    let res := showRes r1.1.trace r1.2 ++ (match c.text2, second with
+      | some _, some (_, s2) => " ;; " ++ s2
+      | some _, none => " ;; -"
+      | none, _ => "")
+    let evs := match cutAtPanic wEnd.trace with
       | some pre => canonTrace (pre ++ w.trace.filter isShutdown)
       | none => canonTrace w.trace
     evs.foldl (fun acc e => acc ++ " " ++ encEv e) s!"{res} {evs.length}"
@@ -346,6 +365,78 @@ def opUpdateWith (format noSnap : Bool) : Rd String := do
   let b := run true
   pure (if a == b then a else "TABLE-MISS")
 
+/-- several root files handed to one CLI invocation (serial): every file gets a fresh runner, so
+    nothing one file sets (sort mode, result mode, substitution, threshold, labels, sessions)
+    reaches the next.  `mode`: `run` (check) or `override`. Sessions are numbered over the whole
+    invocation, as the engine-side log sees them. -/
+def shiftEv (off : Nat) : Ev → Ev
+  | .make i ok => .make (i + off) ok
+  | .run k sql => .run (k + off) sql
+  | .shutdown k => .shutdown (k + off)
+  | e => e
+
+def countMakes (t : List Ev) : Nat := (t.filter (fun e => match e with | .make .. => true | _ => false)).length
+
+def opCliMulti : Rd String := do
+  let mode ← tok
+  let strict ← bool
+  let sep ← str
+  let threshold ← nat
+  let labels ← listOf str
+  let fs ← listOf (do let p ← str; let c ← str; pure (p, c))
+  let roots ← listOf str
+  let valid ← listOf pairSB
+  let rmatches ← listOf tripleSSB
+  let db ← readDb
+  let run (dflt : Bool) : String :=
+    let pcfg : PCfg :=
+      { regexValid := fun s => (lookup2 valid s).getD dflt, fromChar := ColT.fromCharDefault }
+    let rm := fun re t => (lookupPair rmatches re t).getD dflt
+    let E := dbEnv db (substFn [] []) rm
+    let cfg : RCfg := { labels := labels, strictCols := strict }
+    let uc : UCfg := { sep := sep, strictCols := strict, regexMatch := rm }
+    -- state threaded through the roots: files, trace so far, per-root status; `none` = unsupported
+    let step (acc : Option (Fs × List Ev × List String)) (root : Str) : Option (Fs × List Ev × List String) :=
+      match acc with
+      | none => none
+      | some (files, trace, stats) =>
+        match parseFile pcfg files (includeFuel files) root [] with
+        | .error .outOfFuel => none
+        | .error (.parse (.panic _) _ _) => none
+        | .error (.parse (.err _ l) _ _) =>
+          some (files, trace, stats ++ [if mode == "run" then s!"err {l}" else "done"])
+        | .error (.notFound ..) => some (files, trace, stats ++ [if mode == "run" then "err 0" else "done"])
+        | .error (.emptyInclude _ l _) =>
+          some (files, trace, stats ++ [if mode == "run" then s!"err {l}" else "done"])
+        | .ok lrecs =>
+          let recs := lrecs.map (·.record)
+          let w0 : World DbState := { db := {}, threshold := threshold }
+          let off := countMakes trace
+          if mode == "run" then
+            let r := runMulti E cfg w0 recs
+            if (cutAtPanic r.1.trace).isSome then none else
+            let st := match r.2 with
+              | .ok => "ok"
+              | .failed l _ _ => s!"err {l}"
+              | .crashed => "crashed"
+            some (files, trace ++ (r.1.trace.filter engineVisible).map (shiftEv off), stats ++ [st])
+          else
+            let fin := updateFile E cfg uc false w0 root recs
+            if fin.crashed then none else
+            let evs := dbEvents fin.evs
+            if (cutAtPanic evs).isSome then none else
+            let st := applyFsOps { files := files, temps := [] } (fsOpsOf fin.evs)
+            some (st.files, trace ++ (evs.filter engineVisible).map (shiftEv off), stats ++ ["done"])
+    match roots.foldl step (some (fs, [], [])) with
+    | none => "unsupported"
+    | some (files, trace, stats) =>
+      let sts := stats.foldl (fun acc x => acc ++ " " ++ x) s!"R {stats.length}"
+      let fl := fs.foldl (fun acc f => acc ++ s!" {hx f.1} {hx ((getFile files f.1).getD [])}") s!"F {fs.length}"
+      s!"{sts} {fl} T {encTrace trace}"
+  let a := run false
+  let b := run true
+  pure (if a == b then a else "TABLE-MISS")
+
 /-! ### CLI decision logic -/
 
 def optNat : Rd (Option Nat) := do
@@ -542,6 +633,7 @@ def dispatchOp (line : String) : String :=
       | "update" => opUpdate.run rest
       | "cliupdate" => (opUpdateWith false true).run rest
       | "cliformat" => (opUpdateWith true true).run rest
+      | "climulti" => opCliMulti.run rest
       | "part" => opPart.run rest
       | "partcfg" => opPartCfg.run rest
       | "sip" => opSip.run rest
